@@ -199,4 +199,19 @@ CLAIMS["C16"] = {
     "note": "Trusts: the telescoping identity (stated in the evidence), libm within a few ulps (intervals are widened accordingly), m in {2,3} for the interval clauses.",
 }
 
+CLAIMS["C15"] = {
+    "category": "other",
+    "technique": "abstract interpretation of every benchmark evaluate() in an outward-rounded interval domain with affine forms; configuration folded from set(); interval branch-and-bound over the declared box (16 processes)",
+    "text": "For each of the 23 single-objective benchmark classes the box, criteria, documented optimum and coordinates are folded from the "
+            "literals of set(), and evaluate() is interpreted over interval boxes (never on sample points of the box): the root box and every "
+            "visited sub-box must be free of possible domain errors and float-incompatible method calls; the enclosure on the degenerate box "
+            "of the documented coordinates must lie within 1e-3 of the documented value (n in {1,2,3,5,10} where accepted); and a best-first "
+            "interval branch-and-bound proves f >= f* - 1e-3 (<= for maximised) on the whole box at n=2 (thorough: n in {1,2,3}). A sub-box "
+            "whose entire enclosure beats the optimum is a definite violation reported with its coordinates; sub-boxes still undecided when "
+            "the budget ends are counted in the evidence and never alarm. Unlike the tests (one point per function) a proved bound covers "
+            "every point of the box. Known findings: EqualityConstr (float method, bound), ModifiedEasom for odd n (documented value).",
+    "note": "Trusts: libm within a few ulps (enclosures widened), IEEE double arithmetic; Schwefel, Six-hump and Shubert are only partly proved "
+            "within the budget with the natural interval extension (counted as undecided boxes); dimensions above 3 are not decided for R5.",
+}
+
 NOT_APPLICABLE = {}
